@@ -45,6 +45,12 @@ func addNullPools(a *aspec.ASpec, s aspec.Schema) {
 		}
 		return false
 	}
+	if strings.Contains(string(bs), "PoolNames") && !has("PoolNames") {
+		a.Schemas = append(a.Schemas, aspec.NamedSchema{Name: "PoolNames", Schema: aspec.Schema{K: "array", Items: &aspec.Schema{K: "string"}}})
+	}
+	if strings.Contains(string(bs), "PoolAliasA") && !has("PoolAliasA") {
+		a.Schemas = append(a.Schemas, aspec.NamedSchema{Name: "PoolAliasA", Schema: aspec.Schema{K: "ref", To: "PoolA"}})
+	}
 	if strings.Contains(string(bs), "PoolNullStr") && !has("PoolNullStr") {
 		a.Schemas = append(a.Schemas, aspec.NamedSchema{Name: "PoolNullStr", Schema: aspec.Schema{K: "string", Nullable: true}})
 	}
